@@ -1516,6 +1516,8 @@ class Interp:
             if isinstance(s, (str, FmtReal, SymStr)):
                 parts.append(s)
             else:
+                if len(e.values) == 1 and isinstance(s, OpaqueStr):
+                    return s  # f"{x:spec}" alone: keep what is known about it (FormattedNumber)
                 opaque = True
         if opaque:
             return OpaqueStr()
@@ -1533,6 +1535,10 @@ class Interp:
         if is_z3(v):
             if spec in (None, "") and is_sym_num(v):
                 return FmtReal(v)
+            if isinstance(spec, str) and is_sym_num(v):
+                from .core import FormattedNumber
+
+                return FormattedNumber(v, spec)
             return OpaqueStr()
         if isinstance(v, Obj):
             names = ["__repr__"] if conv == ord("r") else ["__str__", "__repr__"]
@@ -1832,6 +1838,18 @@ class Interp:
                 if I.truthy(v, "any()"):
                     return True
             return False
+
+        @reg("round")
+        def _round(I, a, k):
+            x = a[0]
+            nd = a[1] if len(a) > 1 else k.get("ndigits")
+            if isinstance(x, (int, float)) and (nd is None or isinstance(nd, int)):
+                return round(x, nd) if nd is not None else round(x)
+            if is_sym_num(x) and (nd is None or isinstance(nd, int)):
+                # some number near x: an uninterpreted function of x (sound for proofs; equal to x only if proved so)
+                f = z3.Function("round_%s" % ("int" if nd is None else nd), z3.RealSort(), z3.RealSort())
+                return f(to_real(x))
+            raise Unsupported("round(%r, %r)" % (x, nd))
 
         @reg("sum")
         def _sum(I, a, k):
